@@ -18,6 +18,9 @@ From Grex Require Import Base.Str Base.Ranges Model.Config Model.Cluster Model.D
   Model.Pipeline.
 From Grex Require Import Proofs.Lang Proofs.Spec Proofs.FoldTables Proofs.EngineDen
   Proofs.Construction Proofs.PropsGlue.
+From Grex Require Import Engine.Syntax Engine.Parse Engine.Sem.
+From Grex Require Import Proofs.PrintParseNum Proofs.PrintParseDefs Proofs.PrintParseXTok
+  Proofs.PropsGlueE2E.
 From GrexGen Require Import GrexTables OracleTables.
 
 (* (a) every (normalised) test case that satisfies its own specification is accepted;
@@ -89,6 +92,77 @@ Proof. exact construction_sound_trie. Qed.
 Theorem C01_total : forall isd c db sc ws, exists s, build isd c db sc ws = Some s.
 Proof. exact build_total. Qed.
 
+(* (f) END TO END, at the string level.  Parse.parse is_ws is the model of the regex crate's
+       parser (Engine/Parse.v), L_rast the matching relation of the regex crate on parsed
+       patterns (Engine/Sem.v); scalar x: x is a Unicode scalar value; printable c: no colour,
+       no surrogate-pair escapes (f_colour c = false /\ f_sur c = false); ws_ok is_ws: the
+       whitespace test given to the parser rejects 0-9 , and }.
+       Case-sensitive builds: the string returned by build is accepted by the parser, without
+       flags, and the parsed pattern matches every test case in full (K4 excepted). *)
+Theorem C01_build_parse_sound : forall isd is_ws c db sc ws s,
+  f_ci c = false ->
+  ws <> [] ->
+  Forall (Forall scalar) ws ->
+  oracle_ok db (normalise c db ws) ->
+  printable c -> f_verbose c = false -> ws_ok is_ws ->
+  no_merge (grapheme_clusters c db (normalise c db ws)) = true ->
+  build isd c db sc ws = Some s ->
+  exists fl r, parse is_ws s = Some (fl, r) /\ fl_i fl = false /\ fl_x fl = false
+    /\ forall t, In t ws -> (t <> [] \/ K4 (normalise c db ws) = false) ->
+         L_rast lit_cs cls_engine r t.
+Proof. exact build_sound_cs_nv. Qed.
+
+(* verbose mode: the output "(?x)..." is parsed under the x flag; ws_x is_ws: is_ws is the
+   engine's whitespace table (Proofs/PrintParseXTok.v; PrintParseX.ws_x_std) *)
+Theorem C01_build_parse_sound_verbose : forall isd is_ws c db sc ws s,
+  f_ci c = false ->
+  ws <> [] ->
+  Forall (Forall scalar) ws ->
+  oracle_ok db (normalise c db ws) ->
+  printable c -> f_verbose c = true -> ws_x is_ws ->
+  no_merge (grapheme_clusters c db (normalise c db ws)) = true ->
+  build isd c db sc ws = Some s ->
+  exists fl r, parse is_ws s = Some (fl, r) /\ fl_i fl = false /\ fl_x fl = true
+    /\ forall t, In t ws -> (t <> [] \/ K4 (normalise c db ws) = false) ->
+         L_rast lit_cs cls_engine r t.
+Proof. exact build_sound_cs_v. Qed.
+
+(* under (?i): the parsed pattern carries the i flag and matches the ORIGINAL test case t when
+   lower-casing t is code-point-wise and t avoids the skew set (K3) *)
+Theorem C01_build_parse_sound_ci : forall isd is_ws c db sc ws s,
+  f_ci c = true ->
+  ws <> [] ->
+  Forall (Forall scalar) ws ->
+  (forall s0, In s0 ws -> Forall scalar (lower' db s0)) ->
+  oracle_ok db (normalise c db ws) ->
+  printable c -> f_verbose c = false -> ws_ok is_ws ->
+  no_merge (grapheme_clusters c db (normalise c db ws)) = true ->
+  build isd c db sc ws = Some s ->
+  exists fl r, parse is_ws s = Some (fl, r) /\ fl_i fl = true /\ fl_x fl = false
+    /\ forall t, In t ws ->
+         lower' db t = map lower1 t ->
+         Forall (fun x => mem_cp x skew_set = false) t ->
+         (t <> [] \/ K4 (normalise c db ws) = false) ->
+         L_rast lit_ci cls_engine r t.
+Proof. exact build_sound_ci_nv. Qed.
+
+Theorem C01_build_parse_sound_ci_verbose : forall isd is_ws c db sc ws s,
+  f_ci c = true ->
+  ws <> [] ->
+  Forall (Forall scalar) ws ->
+  (forall s0, In s0 ws -> Forall scalar (lower' db s0)) ->
+  oracle_ok db (normalise c db ws) ->
+  printable c -> f_verbose c = true -> ws_x is_ws ->
+  no_merge (grapheme_clusters c db (normalise c db ws)) = true ->
+  build isd c db sc ws = Some s ->
+  exists fl r, parse is_ws s = Some (fl, r) /\ fl_i fl = true /\ fl_x fl = true
+    /\ forall t, In t ws ->
+         lower' db t = map lower1 t ->
+         Forall (fun x => mem_cp x skew_set = false) t ->
+         (t <> [] \/ K4 (normalise c db ws) = false) ->
+         L_rast lit_ci cls_engine r t.
+Proof. exact build_sound_ci_v. Qed.
+
 Print Assumptions C01_sound_expr.
 Print Assumptions C01_self_accept.
 Print Assumptions C01_self_accept_ci.
@@ -97,3 +171,7 @@ Print Assumptions C01_ci_original_codepoint.
 Print Assumptions C01_ci_original.
 Print Assumptions C01_trie_sound_with_merge.
 Print Assumptions C01_total.
+Print Assumptions C01_build_parse_sound.
+Print Assumptions C01_build_parse_sound_verbose.
+Print Assumptions C01_build_parse_sound_ci.
+Print Assumptions C01_build_parse_sound_ci_verbose.
